@@ -157,10 +157,10 @@ def run_loader(ck, files, tag, batch=60, nproc=12, alarm=None):
     if use_asan():
         env.update(ASAN_ENV)
         env["NF_NO_CONFIRM"] = "1"
-    if alarm:
-        env["NF_ALARM"] = str(alarm)
     else:
         env["NF_RLIMIT_MB"] = "2048"
+    if alarm:
+        env["NF_ALARM"] = str(alarm)
     chunks = [files[i::nproc] for i in range(nproc)]
     procs = []
     for i, ch in enumerate(chunks):
